@@ -165,6 +165,14 @@ SetDefaultPolicy == SetPolicyTo(<<"default">>)
 MutateThroughReader(r) == r \in DOMAIN readers /\ Refuse
 MutateZone == Refuse
 
+(* not a call on the zone at all: the caller changes (adds a record to, changes the TTL of,
+   clears) an Rdataset / RRset object of its own that it once handed to a write transaction
+   which has ended since.  Committed versions do not alias the caller's objects: nothing
+   changes. *)
+CallerReusesObjects ==
+    /\ res' = "ok"
+    /\ UNCHANGED <<versions, allIds, published, readers, policy, writer>>
+
 ---------------------------------------------------------------------------
 Init ==
     /\ versions = <<[id |-> 1, content |-> Empty]>>
@@ -186,6 +194,7 @@ Next ==
     \/ SetUnlimited \/ SetDefaultPolicy
     \/ \E p \in CustomPolicies : SetCustomPolicy(p)
     \/ MutateZone
+    \/ CallerReusesObjects
 
 Spec == Init /\ [][Next]_vars
 
